@@ -69,8 +69,18 @@ theorem transferLockCore_forest {s s' : State} {q c n nt : Nat} {o : SyncOwner} 
         | some r =>
           cases r with
           | none =>
-            simp only [he, Option.some.injEq, Prod.mk.injEq] at h
-            rw [← h.1]; exact hf
+            simp only [he] at h
+            by_cases hcn : c = nt'
+            · simp only [hcn, if_true, Option.some.injEq, Prod.mk.injEq] at h
+              rw [← h.1]; exact hf
+            · simp only [hcn, if_false] at h
+              cases ha : afterTransfer s q nt' with
+              | none => simp [ha] at h
+              | some s7 =>
+                simp only [ha, Option.some.injEq, Prod.mk.injEq] at h
+                rw [← h.1]
+                obtain ⟨e1, e2⟩ := afterTransfer_sameTD hinv ha
+                exact Forest.congr e1 e2 hf
           | some p =>
             obtain ⟨s4, ch⟩ := p
             simp only [he] at h
